@@ -285,6 +285,8 @@ class Check:
                     changed += [t.gen_background()]
                 else:
                     changed += [t.gen_constants()]
+                    # which exceptions isvalidaa / isvalidcdr3 catch, which positions and letters isvalidcdr3 tests (C18_source_cdr3_*)
+                    changed += [body_translator(t.gen_cdr3_rule)]
             if self.pid == "C20":
                 changed += [load("gen_footprints").main()["changed"]]
             if self.pid in ("C12", "C03"):
